@@ -337,9 +337,22 @@ theorem goback_spec (prev : Nat × Bool) (hg : GoodMark src prev) : T src Tr (go
     | ok a => exact ⟨this, trivial⟩
 macro_rules | `(tactic| hspecOld) => `(tactic| exact T.anyQ (goback_spec _ (by assumption)))
 
-theorem expect_spec (k : TokenKind) (site : String) : T src Tr (expect k site) (fun _ _ => True) := by
+/-- an offset at which the scanner, started in some state over `src`, produces a token of kind `k` -/
+def RealPos (src : Array Char) (k : TokenKind) (pos : Nat) : Prop :=
+  ∃ tok, tokIs tok k = true ∧ RealTok src pos tok
+
+/-- **positions come from tokens**: the offset `expect(k)` returns (the source of the keyword, operator and
+    bracket positions in the tree) is the offset of a source token of kind `k` -/
+theorem expect_spec (k : TokenKind) (site : String) : T src Tr (expect k site) (fun pos _ => RealPos src k pos) := by
   unfold expect
-  hoare
+  refine T.bindP takeCurrent_spec ⟨fun cur hcur => ?_⟩
+  split
+  · rename_i pos tok
+    split
+    · rename_i hk
+      exact T.bind (T.anyQ next_spec) (fun _ => T.pure _ (fun _ _ => ⟨tok, hk, hcur _ _ rfl⟩))
+    · hoare
+  · hoare
 
 theorem skipped_spec (k : TokenKind) : T src Tr (skipped k) (fun _ _ => True) := by
   unfold skipped
@@ -428,6 +441,53 @@ theorem stringLiteral_spec : T src Tr stringLiteral (fun l _ => RealStr src l) :
   · rename_i pos value
     exact T.bind (T.anyQ next_spec) (fun _ => T.pure _ (fun _ _ => ⟨value, rfl, hcur _ _ rfl⟩))
   · hoare
+
+/-! ### what "a token of the source" means on the text alone -/
+
+theorem rest_drop (sc : Scanner) (k : Nat) : sc.rest.drop k = sc.src.toList.drop (sc.pos + k) := by
+  unfold Scanner.rest
+  simp [List.drop_drop, Nat.add_comm]
+  rw [List.take_of_length_le (by simp)]
+  simp [List.drop_drop, Nat.add_comm]
+
+/-- the text of a literal or identifier token stands verbatim in the source at the token's offset -/
+theorem RealTok.lit_at {src : Array Char} {p : Nat} {k : LitKind} {txt : List Char}
+    (h : RealTok src p (.literal k txt)) : txt <+: src.toList.drop p := by
+  obtain ⟨sc, sc', hsrc, hnt⟩ := h
+  rcases Gosyn.Props.C05.nextToken_at_pos sc sc' p (.literal k txt) hnt with ⟨h1, _⟩ | ⟨j, hp, _, hpre, _⟩
+  · cases h1
+  · rw [rest_drop, ← hp, hsrc] at hpre
+    exact hpre
+
+/-- C05 / C06 for identifier leaves, at creation: name and offset are the source's -/
+theorem RealIdent.verbatim {src : Array Char} {id : Ident} (h : RealIdent src id) :
+    ∃ name, id.name = String.ofList name ∧ name <+: src.toList.drop id.pos := by
+  obtain ⟨name, hn, ht⟩ := h
+  exact ⟨name, hn, ht.lit_at⟩
+
+theorem RealLit.verbatim {src : Array Char} {l : BasicLit} (h : RealLit src l) :
+    ∃ value, l.value = String.ofList value ∧ value <+: src.toList.drop l.pos := by
+  obtain ⟨v, hv, ht⟩ := h
+  exact ⟨v, hv, ht.lit_at⟩
+
+theorem RealStr.verbatim {src : Array Char} {l : StringLit} (h : RealStr src l) :
+    ∃ value, l.value = String.ofList value ∧ value <+: src.toList.drop l.pos := by
+  obtain ⟨v, hv, ht⟩ := h
+  exact ⟨v, hv, ht.lit_at⟩
+
+/-- an offset returned by `expect(k)` holds the text of a token of kind `k` (or stands for an automatically
+    inserted semicolon, which has no text) -/
+theorem RealPos.text_at {src : Array Char} {k : TokenKind} {pos : Nat} (h : RealPos src k pos) :
+    ∃ tok, tokIs tok k = true ∧
+      (tok = .operator .SemiColon ∨ tok.text <+: src.toList.drop pos) := by
+  obtain ⟨tok, hk, sc, sc', hsrc, hnt⟩ := h
+  refine ⟨tok, hk, ?_⟩
+  rcases Gosyn.Props.C05.nextToken_at_pos sc sc' pos tok hnt with ⟨h1, _, _, hp, _⟩ | ⟨j, hp, _, hpre, _⟩
+  · left
+    exact h1
+  · right
+    rw [rest_drop, ← hp, hsrc] at hpre
+    exact hpre
 
 /-! ### `Expression::pos()` never meets `List` -/
 
